@@ -4,7 +4,7 @@ from .C01 import ASSUME
 
 TYPES = ["Model", "Proc", "Task", "Message", "Package", "Event"]
 # (rows, conds, exprs per cond, order?, paging?)
-QUICK_SHAPES = [(2, 1, 1, 0, 0), (3, 1, 1, 0, 0), (2, 1, 2, 0, 0), (2, 2, 1, 0, 0), (2, 0, 0, 1, 0), (3, 0, 0, 1, 0), (2, 1, 1, 1, 1), (3, 0, 0, 0, 1), (2, 0, 0, 2, 0), (3, 0, 0, 2, 0)]
+QUICK_SHAPES = [(2, 1, 1, 0, 0), (3, 1, 1, 0, 0), (2, 1, 2, 0, 0), (2, 2, 1, 0, 0), (2, 0, 0, 1, 0), (3, 0, 0, 1, 0), (2, 1, 1, 1, 1), (3, 0, 0, 1, 1), (3, 0, 0, 0, 1), (2, 0, 0, 2, 0), (3, 0, 0, 2, 0)]
 THOROUGH_SHAPES = QUICK_SHAPES + [(3, 1, 2, 0, 0), (3, 2, 1, 0, 0), (2, 2, 2, 0, 0), (3, 1, 1, 1, 1), (3, 1, 2, 1, 0)]
 
 
